@@ -224,6 +224,34 @@ def flag_lists(ctx, p, K):
            message="unmasked_slim / masked_slim must be the same routine on self.mask with the flag False / True (so that the two lists partition the pixels)")
 
 
+def _rebind_masking(f, work: str, mask: str):
+    """statements  work = work * np.invert(mask)  (either operand order)"""
+    out = []
+    inv = (f"np.invert({mask})", f"numpy.invert({mask})", f"~{mask}")
+    for n in f.body_nodes():
+        if isinstance(n, ast.Assign) and len(n.targets) == 1 and isinstance(n.targets[0], ast.Name) and n.targets[0].id == work and isinstance(n.value, ast.BinOp) and isinstance(n.value.op, ast.Mult):
+            a, b = norm_text(n.value.left), norm_text(n.value.right)
+            if (a == work and b in inv) or (b == work and a in inv):
+                out.append(n)
+    return out
+
+
+def _is_native_and_not_skip(f, test: ast.expr, work: str) -> bool:
+    """test is  <is_native> and not skip_mask  with is_native := len(work.shape) == 2 (directly or through a local)"""
+    if not (isinstance(test, ast.BoolOp) and isinstance(test.op, ast.And) and len(test.values) == 2):
+        return False
+    parts = [norm_text(v) for v in test.values]
+    if "not skip_mask" not in parts:
+        return False
+    other = [v for v in test.values if norm_text(v) != "not skip_mask"][0]
+    if isinstance(other, ast.Name):
+        asg = [n for n in f.body_nodes() if isinstance(n, ast.Assign) and len(n.targets) == 1 and isinstance(n.targets[0], ast.Name) and n.targets[0].id == other.id]
+        if len(asg) != 1:
+            return False
+        other = asg[0].value
+    return norm_text(other) in (f"len({work}.shape) == 2", f"{work}.ndim == 2", f"np.ndim({work}) == 2")
+
+
 def masking(ctx, p, K):
     """native inputs are multiplied by the inverted mask on every non-skip path of the converters"""
     rule = "C01.masking"
@@ -232,26 +260,31 @@ def masking(ctx, p, K):
     S = K.summarize(f, {"skip_mask": Ref("skip_mask"), "store_native": Ref("store_native")})
     inv = Poly.fn("invert", S_("mask_2d"))
     muls = [s for s in S.stores if s.op == "*=" and value_poly(s.value) == inv]
-    ok = len(muls) == 1
+    rebinds = _rebind_masking(f, "array_2d", "mask_2d")
     det = ""
-    if ok:
+    if len(muls) == 1 and not rebinds:
         gs = real_guards(muls[0].guards)
         det = "; ".join(map(repr, gs))
         # guard must be exactly: is_native and not skip_mask, with is_native := len(shape) == 2
         txt = sorted(repr(c) for c in gs)
         ok = len(gs) == 2 and "not truth(skip_mask)" in txt and any(t.startswith("(ndim(array_2d") and t.endswith(" == 2)") for t in txt)
-    ctx.ob(rule, f.key + ":mask-multiply", ok, where=f, node=muls[0].node if muls else f.node, construct=det or f"{len(muls)} in-place multiplications by ~mask",
+        site = muls[0].node
+    elif len(rebinds) == 1 and not muls:
+        # the same masking written as a rebinding  array_2d = array_2d * np.invert(mask_2d)
+        site = rebinds[0]
+        br = wire.enclosing_branches(f, site)
+        det = "rebinding under " + "; ".join(("" if t else "not ") + norm_text(i.test) for i, t in br)
+        ok = len(br) == 1 and br[0][1] and _is_native_and_not_skip(f, br[0][0].test, "array_2d")
+    else:
+        ok = False
+        site = f.node
+    ctx.ob(rule, f.key + ":mask-multiply", ok, where=f, node=site, construct=det or f"{len(muls)} in-place / {len(rebinds)} rebinding multiplications by ~mask",
            message="a native input must be multiplied by np.invert(mask) whenever skip_mask is False")
     # it happens before any return
-    if muls:
+    if ok:
         first_ret = min((n.lineno for n in wire.returns_of(f)), default=10 ** 9)
-        ctx.ob(rule, f.key + ":before-return", muls[0].node.lineno < first_ret, where=f, node=muls[0].node, construct=f"multiply at line {muls[0].node.lineno}, first return at {first_ret}",
+        ctx.ob(rule, f.key + ":before-return", site.lineno < first_ret, where=f, node=site, construct=f"multiply at line {site.lineno}, first return at {first_ret}",
                message="masking must precede every return of the converter")
-    # the working array is a copy of the input
-    cp = [n for n in f.body_nodes() if isinstance(n, ast.Assign) and isinstance(n.value, ast.Call) and isinstance(n.value.func, ast.Attribute) and n.value.func.attr == "copy"
-          and isinstance(n.targets[0], ast.Name) and n.targets[0].id == "array_2d"]
-    ctx.ob(rule, f.key + ":copy", len(cp) >= 1 and (not muls or cp[0].lineno < muls[0].node.lineno), where=f, node=cp[0] if cp else f.node, construct=norm_text(cp[0]) if cp else "no copy",
-           message="the converter must work on a copy of the caller's array")
     # convert_grid_2d: both components
     f = p.func(f"{G2}:convert_grid_2d")
     S = K.summarize(f, {"store_native": Ref("store_native")})
@@ -415,5 +448,7 @@ CONTROLS = [
     Control("Grid2D.native forgets store_native", "autoarray/structures/grids/uniform_2d.py", in_func("Grid2D.native", "            store_native=True,\n", ""), "C01.wiring"),
     Control("grid components stacked x,y", _G, in_func("grid_2d_slim_from", "np.stack((grid_1d_slim_y, grid_1d_slim_x), axis=-1)", "np.stack((grid_1d_slim_x, grid_1d_slim_y), axis=-1)"), "C01.components"),
     Control("twin: flat index by formula y*W+x", _M, in_func("mask_slim_indexes_from", "                mask_pixels[mask_index] = regular_index", "                mask_pixels[mask_index] = x + mask_2d.shape[1] * y"), None, twin=True),
+    Control("twin: masking written as a rebinding (array_2d = array_2d * ~mask)", _A, in_func("convert_array_2d", "        array_2d *= np.invert(mask_2d)", "        array_2d = array_2d * np.invert(mask_2d)"), None, twin=True),
+    Control("masking rebinding under the wrong guard", _A, in_func("convert_array_2d", "    if is_native and not skip_mask:\n        array_2d *= np.invert(mask_2d)", "    if is_native and skip_mask:\n        array_2d = array_2d * np.invert(mask_2d)"), "C01.masking"),
     Control("twin: guard written == False", _A, in_func("array_2d_slim_from", "if not mask_2d[y, x]:", "if mask_2d[y, x] == False:"), None, twin=True),
 ]
